@@ -16,6 +16,8 @@ for n in names:
     if not os.path.exists(d + "/patch.diff"):
         continue
     meta = json.load(open(d + "/meta.json"))
+    if meta.get("retired"):
+        print(n, "retired:", meta["retired"][:80]); continue
     props = props_override or [meta["breaks_property"]]
     if subprocess.run(["git", "-C", REPO, "status", "--porcelain", "--untracked-files=no"], capture_output=True, text=True).stdout.strip():
         sys.exit(REPO + " is dirty")
